@@ -94,6 +94,7 @@ func (r *Report) finish(evdir string, writeEvidence bool) int {
 	ext := map[string]int{}
 	var samples []any
 	var vacuity []string
+	var assumedAll []string
 	replayDir := filepath.Join(envOr("HVC_REPLAYDIR", "/verif/replay"), r.Prop)
 	var replays map[*Obligation]*ReplayResult
 	emitViolation := func(name, reason string, o *Obligation) {
@@ -152,6 +153,7 @@ func (r *Report) finish(evdir string, writeEvidence bool) int {
 		for k, v := range u.ExtUsed {
 			ext[k] += v
 		}
+		assumedAll = append(assumedAll, u.Assumed...)
 		for _, o := range u.Obligations {
 			if o.Vacuity {
 				if o.Status == "failed" {
@@ -223,22 +225,22 @@ func (r *Report) finish(evdir string, writeEvidence bool) int {
 			"wall_s":      r.Wall,
 			"violations":  violations,
 			"coverage": map[string]any{
-				"obligations":                 total,
-				"discharged":                  discharged,
-				"checker_cmd":                 "/verif/bin/hvc check -property " + r.Prop + " -tier " + r.Tier,
-				"trusted_base":                trustedBase,
-				"samples":                     samples,
-				"functions_under_contract":    funcs,
-				"by_backend":                  byBackend,
-				"solver_time_s":               solverTime,
-				"abstracted_sites":            absList,
-				"assumed_external_contracts":  extList,
-				"known_findings":              knownHits,
-				"vacuity_alarms":              vacuity,
-				"trivially_true_obligations":  trivial,
-				"unmechanised_lemmas":         unmechanised[r.Prop],
-				"bounded_checks":              []string{},
-				"explanation":                 "weakest-precondition style VCs generated by hvc from the current /repo tree (contracts in zz_contracts_verif.go), one SMT query per obligation",
+				"obligations":                total,
+				"discharged":                 discharged,
+				"checker_cmd":                "/verif/bin/hvc check -property " + r.Prop + " -tier " + r.Tier,
+				"trusted_base":               trustedBase,
+				"samples":                    samples,
+				"functions_under_contract":   funcs,
+				"by_backend":                 byBackend,
+				"solver_time_s":              solverTime,
+				"abstracted_sites":           absList,
+				"assumed_external_contracts": extList,
+				"known_findings":             knownHits,
+				"vacuity_alarms":             vacuity,
+				"trivially_true_obligations": trivial,
+				"unmechanised_lemmas":        unmechanised[r.Prop],
+				"bounded_checks":             []string{},
+				"explanation":                "weakest-precondition style VCs generated by hvc from the current /repo tree (contracts in zz_contracts_verif.go), one SMT query per obligation",
 			},
 			"assumptions": append(append([]string{}, trustedBase...), unmechanised[r.Prop]...),
 		}
@@ -270,4 +272,17 @@ type ReplayResult struct {
 	Note      string `json:"note"`
 	Input     string `json:"input,omitempty"`
 	Output    string `json:"output,omitempty"`
+}
+
+// trustedContracts lists the contracts that are used at call sites but whose
+// bodies are not verified (flag trusted).
+func (r *Report) trustedContracts() []string {
+	var out []string
+	for _, name := range sortedKeys(r.p.ByName) {
+		fi := r.p.ByName[name]
+		if fi.Flag("trusted") {
+			out = append(out, name)
+		}
+	}
+	return out
 }
